@@ -7,6 +7,7 @@ mod c06;
 mod c08;
 mod c09;
 mod c12;
+mod c14;
 mod c17;
 mod c18;
 mod common;
@@ -21,7 +22,7 @@ mod val;
 use common::*;
 
 fn all_families() -> Vec<Box<dyn Family>> {
-  vec![Box::new(c08::C08), Box::new(c18::C18), Box::new(c09::C09), Box::new(c12::C12), Box::new(thr_ops::C19Ops), Box::new(thr_ops::C19Subjects), Box::new(thr_ops::C11), Box::new(timed::C16), Box::new(timed::C15), Box::new(c01::C01), Box::new(c05::C05Seq), Box::new(c05::C05Thr), Box::new(c06::C06), Box::new(c17::C17)]
+  vec![Box::new(c08::C08), Box::new(c18::C18), Box::new(c09::C09), Box::new(c12::C12), Box::new(thr_ops::C19Ops), Box::new(thr_ops::C19Subjects), Box::new(thr_ops::C11), Box::new(timed::C16), Box::new(timed::C15), Box::new(c01::C01), Box::new(c05::C05Seq), Box::new(c05::C05Thr), Box::new(c06::C06), Box::new(c17::C17), Box::new(c14::C14)]
 }
 
 fn spec_for(prop: &str) -> Option<CheckSpec> {
@@ -131,6 +132,18 @@ fn spec_for(prop: &str) -> Option<CheckSpec> {
         FamilySpec { fam: Box::new(thr_ops::C19Ops), quick_runs: 90_000, thorough_runs: 2_000_000 },
         FamilySpec { fam: Box::new(thr_ops::C19Subjects), quick_runs: 90_000, thorough_runs: 2_000_000 },
       ],
+      quick_cap_s: 60,
+      thorough_cap_s: 900,
+    }),
+    "C14" => Some(CheckSpec {
+      property: "C14",
+      level: "exploration",
+      rule: seq_rule.to_string(),
+      assumptions: vec![
+        "self-differential oracle: the reference for subscriber k is the same AST built afresh and subscribed once, driven by exactly the steps that concerned k in the shared run; no operator semantics are assumed".into(),
+        "each hot source observer belongs to the subscription during whose driver action it was created".into(),
+      ],
+      families: vec![FamilySpec { fam: Box::new(c14::C14), quick_runs: 200_000, thorough_runs: 3_000_000 }],
       quick_cap_s: 60,
       thorough_cap_s: 900,
     }),
